@@ -26,18 +26,18 @@ class Query:
     def __init__(self, name, harness, entry, tus=(), defines=None, unwind=8, stubs=(), stdmodel=False, timeout=120,
                  mem_gb=12, backends=('cadical',), checks='mem', bound='', silent_throw=False, renames=None,
                  known=None, allow_bodyless=(), expect_covers=None, extra_cbmc=(), cxxflags=(), note='',
-                 validate=True, unwindset=(), uf=(), new_cap=0, tu_redirect=None):
+                 validate=True, unwindset=(), uf=(), new_cap=0, tu_redirect=None, yield_in=None):
         self.name = name; self.harness = harness; self.entry = entry; self.tus = tuple(tus)
         self.defines = dict(defines or {}); self.unwind = unwind; self.stubs = tuple(stubs); self.stdmodel = tuple(stdmodel) if isinstance(stdmodel, (tuple, list)) else (('q',) if stdmodel else ())
         self.timeout = timeout; self.mem_gb = mem_gb; self.backends = tuple(backends); self.checks = checks
         self.bound = bound; self.silent_throw = silent_throw; self.renames = dict(renames or {})
         self.known = dict(known or {}); self.allow_bodyless = tuple(allow_bodyless)
         self.expect_covers = expect_covers; self.extra_cbmc = tuple(extra_cbmc); self.cxxflags = tuple(cxxflags)
-        self.note = note; self.validate = validate; self.unwindset = tuple(unwindset); self.uf = tuple(uf); self.new_cap = new_cap; self.tu_redirect = dict(tu_redirect or {})
+        self.note = note; self.validate = validate; self.unwindset = tuple(unwindset); self.uf = tuple(uf); self.new_cap = new_cap; self.tu_redirect = dict(tu_redirect or {}); self.yield_in = yield_in
 
     def module_key(self):
         return (self.harness, tuple(sorted(self.defines.items())), self.tus, self.stdmodel,
-                tuple(sorted(self.renames.items())), self.cxxflags, self.uf, tuple(sorted((k, v[0]) for k, v in self.tu_redirect.items())))
+                tuple(sorted(self.renames.items())), self.cxxflags, self.uf, tuple(sorted((k, v[0]) for k, v in self.tu_redirect.items())), self.yield_in)
 
 
 def sh(cmd, timeout=None, cwd=None, mem_gb=None, env=None):
@@ -62,6 +62,25 @@ def sh(cmd, timeout=None, cwd=None, mem_gb=None, env=None):
 
 class BuildError(Exception):
     pass
+
+
+def insert_yields(txt, fn_regex):
+    out = []; cur = None; n = 0
+    rx = re.compile(fn_regex)
+    for ln in txt.split('\n'):
+        if ln.startswith('define '):
+            m = re.search(r'@("[^"]+"|[\w.$]+)\(', ln)
+            nm = m.group(1).strip('"') if m else ''
+            cur = nm if rx.search(nm) and not re.search(r'harness_|vt_', nm) else None   # (harness code and its lambdas are not instrumented)
+        elif ln.startswith('}'):
+            cur = None
+        elif cur and re.match(r'\s+(%[\w.]+ = )?(load|store|atomicrmw|cmpxchg|fence) ', ln):
+            out.append('  call void @vt_yield()'); n += 1
+        out.append(ln)
+    txt = '\n'.join(out)
+    if n and not re.search(r'^(define|declare) [^@\n]*@vt_yield\(', txt, re.M):
+        txt += '\ndeclare void @vt_yield()\n'
+    return txt, n
 
 
 class Pipeline:
@@ -162,6 +181,17 @@ class Pipeline:
                 if r['rc'] != 0: raise BuildError('llvm-link: ' + r['err'][-3000:])
             else:
                 shutil.copy(hll, os.path.join(d, 'all.ll'))
+            # static constructors are never run by the analysed entry points (objects are built by the harness): drop the
+            # ctor table so that what it keeps alive (iostream init, boost singletons ...) is pruned, in CBMC and natively alike
+            txt = open(os.path.join(d, 'all.ll')).read()
+            txt = re.sub(r'^@llvm\.(global_ctors|used|compiler\.used) = .*$', '', txt, flags=re.M)
+            if q.yield_in:
+                # context-bounded sequentialization (DESIGN C19): in the functions selected by the query, a call of the
+                # harness's vt_yield() precedes every memory access (load/store/atomicrmw/cmpxchg/fence) - the points at
+                # which the harness may run the OTHER thread's operation to completion
+                txt, ny = insert_yields(txt, q.yield_in)
+                if ny == 0: raise BuildError('yield_in: no memory access instrumented')
+            open(os.path.join(d, 'all.ll'), 'w').write(txt)
             r = sh([OPT, '-enable-new-pm=0', '-S', '-internalize', '-internalize-public-api-list=' + ','.join(entries),
                     '-globaldce', '-lowerinvoke', '-simplifycfg', '-globaldce', '-lowerswitch',
                     os.path.join(d, 'all.ll'), '-o', os.path.join(d, 'module.ll')], timeout=300)
@@ -394,7 +424,7 @@ class Pipeline:
     # ---- one query end to end
     def run_query(self, q, replay_root):
         rec = dict(query=q.name, harness=q.harness, entry=q.entry, defines=q.defines, bound=q.bound, unwind=q.unwind,
-                   stubs=['base.c'] + list(q.stubs), stdmodel=q.stdmodel, checks=q.checks, uninterpreted_float_ops=list(q.uf), operator_new_cap_bytes=q.new_cap, internal_callees_redirected_to_stubs=sorted(q.tu_redirect), verdict='error',
+                   stubs=['base.c'] + list(q.stubs), stdmodel=q.stdmodel, checks=q.checks, uninterpreted_float_ops=list(q.uf), operator_new_cap_bytes=q.new_cap, internal_callees_redirected_to_stubs=sorted(q.tu_redirect), preemption_points_in_functions_matching=q.yield_in, verdict='error',
                    failed=[], note=q.note)
         t0 = time.time()
         try:
